@@ -167,5 +167,7 @@ def check(v, tier):
 
 
 def replay(path):
-    print('C16 replays are schedules (seed, history position); re-run ./check C16')
-    return 2
+    """a C16 violation is a schedule / configuration of the whole exploration: the replay re-runs the quick exploration on the current tree"""
+    import os
+    os.environ['VERIF_EVIDENCE_DIR'] = os.path.join(core.BUILD, 'replay-evidence')
+    return check(core.Verdict('C16', 'quick', 0), 'quick')
